@@ -197,6 +197,21 @@ def check_case(ctx, case, with_dask=False):
             lambda: (lambda d: (d.geometry.total_bounds, d.geometry.partition_bounds,
                                 d.geometry.bounds.compute(), [p.compute() for p in d.to_delayed()]))
             (dd.from_pandas(df, npartitions=npart)))
+        if ok and len(vals) >= 3:
+            # a row filter must not inherit the parent's cached partition bounds
+            k0 = len(vals) // 3
+            okf, rf, tbf = ctx.guarded(
+                lambda: (lambda d: (d.partition_sindex, d[d["uid"] >= uid + k0]))(dd.from_pandas(df, npartitions=npart))[1]
+                .geometry.total_bounds)
+            if not okf:
+                rec_raise("dask.filtered.total_bounds", rf, tbf, "dask")
+            else:
+                ctx.count("dask_filtered_checked")
+                ef = total_ref(kind, vals[k0:])
+                if not _row_eq(list(rf), list(ef)):
+                    ctx.violation("total-bounds", f"dask.total_bounds-after-row-filter:{kind}:stale-cache",
+                                  {"kind": kind, "elements": vals, "kept_from": k0}, expected=list(ef),
+                                  observed=[float(v) for v in rf], case=case)
         if not ok:
             rec_raise("dask.total_bounds", res, tb, "dask")
         else:
